@@ -6,6 +6,7 @@ import MazeVerif.Lemmas.WilsonTerm
 import MazeVerif.Props.C01
 import MazeVerif.Props.C19Table33
 import MazeVerif.Props.C19Table24
+import MazeVerif.Props.C19Table25
 /-! # C19 — Wilson's generator samples spanning trees uniformly
 
 Model: `gen_wilson` as a step machine (`Model/WilsonStep.lean`: one step per random draw of the real code), with the
@@ -16,8 +17,9 @@ probability semantics of `Model/WilsonProb.lean`: every draw is uniform on its r
 General theorems (EVERY grid, every `n`, no bound): monotonicity, the sandwich `P n T ≤ P m T ≤ P n T + R n` for all
 `m ≥ n`, conservation of mass, and "positive probability ⇒ a concrete draw list on which the executable machine
 returns `T`" (the machine is what the correspondence check replays against real `gen_wilson` runs).
-Small grids (2x2, 2x3, 3x2, 3x3): for EVERY number of draws `m ≥ n0` every spanning tree has probability within
-`10⁻⁹` of `1/N`, so every spanning tree appears and the limit law is uniform up to `10⁻⁹`.
+Small grids (2x2, 2x3, 3x2, 3x3, 2x4, 4x2, 2x5, 5x2): for EVERY number of draws `m ≥ n0` every spanning tree has
+probability within `10⁻⁹` of `1/N`, so every spanning tree appears and the limit law is uniform up to `10⁻⁹`
+(`C19_full_partial`: the first six grids, `C19_full_partial8`: all eight).
 Support (EVERY grid, `Lemmas/WilsonRefine.lean` + `Lemmas/SpanningMask.lean`): the step machine refines the nested-loop
 model of C01 (`C19_machine_refines_nested`), so every completed run returns a spanning tree in C01's sense
 (`C19_support_sub`); the executable test behind the tables is sound and complete (`C19_isSpanningMask_iff`), the table
@@ -57,6 +59,11 @@ def UniformFrom (rows cols n0 N : Nat) (eps : Rat) : Prop :=
 def C19_full_partial : Prop :=
   UniformFrom 2 2 80 4 eps9 ∧ UniformFrom 2 3 200 15 eps9 ∧ UniformFrom 3 2 200 15 eps9 ∧ UniformFrom 3 3 300 192 eps9 ∧
   UniformFrom 2 4 500 56 eps9 ∧ UniformFrom 4 2 500 56 eps9
+
+/-- the proved part with the two 10-cell grids added: eight grids, every grid with at most 10 cells and both sides
+    at least 2 (2x5 and 5x2: 209 spanning trees each, from 500 draws on) -/
+def C19_full_partial8 : Prop :=
+  C19_full_partial ∧ UniformFrom 2 5 500 209 eps9 ∧ UniformFrom 5 2 500 209 eps9
 
 /-- the full statement: uniformity in the limit on EVERY grid (Wilson's theorem). NOT proved here. -/
 def C19_full : Prop :=
@@ -160,8 +167,15 @@ theorem C19_uniform_3x3 : UniformFrom 3 3 300 192 eps9 := uniform_of_table table
 theorem C19_uniform_2x4 : UniformFrom 2 4 500 56 eps9 := uniform_of_table table_2x4
 theorem C19_uniform_4x2 : UniformFrom 4 2 500 56 eps9 := uniform_of_table table_4x2
 
+theorem C19_uniform_2x5 : UniformFrom 2 5 500 209 eps9 := uniform_of_table table_2x5
+theorem C19_uniform_5x2 : UniformFrom 5 2 500 209 eps9 := uniform_of_table table_5x2
+
 theorem C19_full_partial_holds : C19_full_partial :=
   ⟨C19_uniform_2x2, C19_uniform_2x3, C19_uniform_3x2, C19_uniform_3x3, C19_uniform_2x4, C19_uniform_4x2⟩
+
+/-- all eight evaluated grids (the six of `C19_full_partial` and 2x5, 5x2) -/
+theorem C19_full_partial8_holds : C19_full_partial8 :=
+  ⟨C19_full_partial_holds, C19_uniform_2x5, C19_uniform_5x2⟩
 
 /-- every spanning tree of the 3x3 grid is returned by some run of the executable machine (likewise 2x2, 2x3, 3x2) -/
 theorem C19_tree_appears_of_uniform {rows cols n0 N : Nat} (hu : UniformFrom rows cols n0 N eps9) (hN : 0 < N)
@@ -189,6 +203,10 @@ theorem C19_every_tree_appears_2x4 : ∀ T ∈ allSpanningMasks 2 4, ∃ a b ds 
   C19_tree_appears_of_uniform C19_uniform_2x4 (by norm_num) (by norm_num)
 theorem C19_every_tree_appears_4x2 : ∀ T ∈ allSpanningMasks 4 2, ∃ a b ds s, run 4 2 (a :: b :: ds) ds.length = some (s, []) ∧ s.edges = T :=
   C19_tree_appears_of_uniform C19_uniform_4x2 (by norm_num) (by norm_num)
+theorem C19_every_tree_appears_2x5 : ∀ T ∈ allSpanningMasks 2 5, ∃ a b ds s, run 2 5 (a :: b :: ds) ds.length = some (s, []) ∧ s.edges = T :=
+  C19_tree_appears_of_uniform C19_uniform_2x5 (by norm_num) (by norm_num)
+theorem C19_every_tree_appears_5x2 : ∀ T ∈ allSpanningMasks 5 2, ∃ a b ds s, run 5 2 (a :: b :: ds) ds.length = some (s, []) ∧ s.edges = T :=
+  C19_tree_appears_of_uniform C19_uniform_5x2 (by norm_num) (by norm_num)
 theorem C19_every_tree_appears_3x3 : ∀ T ∈ allSpanningMasks 3 3, ∃ a b ds s, run 3 3 (a :: b :: ds) ds.length = some (s, []) ∧ s.edges = T :=
   C19_tree_appears_of_uniform C19_uniform_3x3 (by norm_num) (by norm_num)
 
@@ -557,5 +575,22 @@ example : P 3 4 208 28927 ≤ P 3 4 300 28927 ∧ P 3 4 300 28927 ≤ P 3 4 208 
 -- the contraction factor is a genuine contraction: 0 <= 1 - termDelta < 1
 example : 0 ≤ 1 - WTerm.termDelta 3 4 ∧ 1 - WTerm.termDelta 3 4 < 1 :=
   ⟨by have := WTerm.termDelta_le_one 3 4; linarith, by have := WTerm.termDelta_pos 3 4; linarith⟩
+
+-- the 10-cell tables: the comb trees of the 2x5 grid (all 5 vertical connections + the top row, mask 15391) and of the
+-- 5x2 grid (all 5 horizontal connections + the left column, mask 349269) are table entries, so the uniform law pins
+-- their probability at every time from 500 draws on, and some run of the executable machine returns them
+example : isSpanningMask 2 5 15391 = true ∧ isSpanningMask 5 2 349269 = true := by decide
+example : R 2 5 700 ≤ eps9 ∧ 1 / (209 : Rat) - eps9 ≤ P 2 5 700 15391 ∧ P 2 5 700 15391 ≤ 1 / (209 : Rat) + eps9 :=
+  have h := C19_uniform_2x5.2.2 700 (by decide)
+  ⟨h.1, h.2 15391 (WRef.mem_allSpanningMasks.mpr (by decide))⟩
+example : R 5 2 500 ≤ eps9 ∧ 1 / (209 : Rat) - eps9 ≤ P 5 2 500 349269 ∧ P 5 2 500 349269 ≤ 1 / (209 : Rat) + eps9 :=
+  have h := C19_uniform_5x2.2.2 500 (by decide)
+  ⟨h.1, h.2 349269 (WRef.mem_allSpanningMasks.mpr (by decide))⟩
+example : (allSpanningMasks 2 5).length = 209 ∧ (allSpanningMasks 5 2).length = 209 :=
+  ⟨C19_full_partial8_holds.2.1.1, C19_full_partial8_holds.2.2.1⟩
+example : ∃ a b ds s, run 2 5 (a :: b :: ds) ds.length = some (s, []) ∧ s.edges = 15391 :=
+  C19_every_tree_appears_2x5 15391 (WRef.mem_allSpanningMasks.mpr (by decide))
+example : ∃ a b ds s, run 5 2 (a :: b :: ds) ds.length = some (s, []) ∧ s.edges = 349269 :=
+  C19_every_tree_appears_5x2 349269 (WRef.mem_allSpanningMasks.mpr (by decide))
 
 end MZ.C19
